@@ -128,6 +128,30 @@ func rulePSK(e *Engine, r *Reporter) {
 	r.Check(inLoop && !earlyExit, "psk compares all keys", e.instrPos(cmp), "loop over every configured hash, no early exit", "the comparison loop can exit early (or there is no loop): timing reveals which key matched / later keys are never compared")
 	args := describe_(cmp.Call.Args[0]) + " vs " + describe_(cmp.Call.Args[1])
 	r.Check(strings.Contains(args, "sha256.Sum256") && strings.Contains(args, "validKeyHashes"), "psk compares token hash with configured hashes", e.instrPos(cmp), args, "ConstantTimeCompare is not applied to (hash of the presented token, configured key hash): "+args)
+	// the hash covers the whole presented token: Sum256's argument is the extraction call's result itself
+	eachInstr(fn, false, func(in ssa.Instruction) {
+		c, ok := in.(*ssa.Call)
+		if !ok {
+			return
+		}
+		g := c.Call.StaticCallee()
+		if g == nil || g.Name() != "Sum256" {
+			return
+		}
+		src := unwrap(c.Call.Args[0])
+		if cv, ok := src.(*ssa.Convert); ok {
+			src = unwrap(cv.X)
+		}
+		whole := false
+		if ex, ok := src.(*ssa.Extract); ok {
+			if call, ok := ex.Tuple.(*ssa.Call); ok {
+				if o := calleeObj(call); o != nil && o.Name() == "AuthFromMD" {
+					whole = true
+				}
+			}
+		}
+		r.Check(whole, "psk hashes the whole presented token", e.instrPos(in), "Sum256(AuthFromMD result)", "the value hashed is "+describe_(c.Call.Args[0])+", not the bearer token as extracted: a token that merely shares a part with a configured key can authenticate")
+	})
 	for i, rs := range returnSites(fn) {
 		if !rs.isSuccess() {
 			continue
